@@ -67,6 +67,31 @@ Example matrix_guard_met :
   forallb (forallb no_fail) [[e]; []; [e]] = true /\ forallb (fun e => num_ok (e_tsf e)) (rows_matrix [[e]; []; [e]]) = true.
 Proof. split; reflexivity. Qed.
 
+(* QueryInstant, vector branch. [order] is the iteration order of the Go map of latest samples; for
+   every order the body is one document with one object per picked fingerprint ... *)
+Theorem doc_wellformed_vector : forall order bs, forallb (forallb no_fail) bs = true ->
+  forallb (fun e => num_ok (e_tsf e)) (rows_matrix bs) = true ->
+  parse_bytes (render (enc_vector order bs)) = Some (doc_vector order bs).
+Proof. exact vector_bytes. Qed.
+Print Assumptions doc_wellformed_vector.
+
+(* ... the map holds every fingerprint of the rows exactly once, with a sample no other row of that
+   fingerprint is newer than; an order that enumerates the map's fingerprints yields exactly them *)
+Theorem vector_one_per_fingerprint : forall es,
+  NoDup (map e_fp (last_values es)) /\ (forall f, In f (map e_fp es) -> In f (map e_fp (last_values es))).
+Proof. intros es. split; [apply last_values_nodup|apply last_values_complete]. Qed.
+Print Assumptions vector_one_per_fingerprint.
+
+Theorem vector_latest_sample : forall es x y, In x (last_values es) -> In y es -> e_fp y = e_fp x ->
+  In x es /\ (e_ts y <= e_ts x)%Z.
+Proof. intros es x y Hx Hy E. split; [now apply last_values_in|now apply (last_values_latest es x y)]. Qed.
+Print Assumptions vector_latest_sample.
+
+Theorem vector_order_respected : forall order m,
+  (forall f, In f order -> In f (map e_fp m)) -> map e_fp (pick order m) = order.
+Proof. exact pick_fps. Qed.
+Print Assumptions vector_order_respected.
+
 (* list endpoints. Tempo tag names / tag values (TempoController.Tags, Values) and Loki/Prometheus
    labels / label values (GenericLabelReq): for every list of byte strings the body is one document
    holding the (sanitised) strings in order *)
